@@ -121,7 +121,7 @@ T density_sketch<T, K, A>::get_estimate(const std::vector<T>& point) const {
   T density = 0;
   for (unsigned height = 0; height < levels_.size(); ++height) {
     for (const auto& p: levels_[height]) {
-      density += (1 << height) * kernel_(p, point) / n_;
+      density += (1ULL << height) * kernel_(p, point) / n_;
     }
   }
   return density;
